@@ -535,7 +535,8 @@ pub fn c14_path(op: u8, idx: u8) {
     let out: Option<(u32, u32)> = match op {
         0 => vfs.lookup(&ctx, node, name_x()).ok().map(|e| (e.attr.st_uid, e.attr.st_gid)),
         1 => vfs.getattr(&ctx, node, None).ok().map(|(s, _)| (s.st_uid, s.st_gid)),
-        2 => vfs.setattr(&ctx, node, set, None, SetattrValid::UID | SetattrValid::GID).ok().map(|(s, _)| (s.st_uid, s.st_gid)),
+        // the valid mask is symbolic: owner ids are translated whatever subset of attributes is being set
+        2 => vfs.setattr(&ctx, node, set, None, SetattrValid::from_bits_truncate(kani::any())).ok().map(|(s, _)| (s.st_uid, s.st_gid)),
         3 => vfs.mkdir(&ctx, node, name_x(), 0, 0).ok().map(|e| (e.attr.st_uid, e.attr.st_gid)),
         4 => vfs.mknod(&ctx, node, name_x(), 0, 0, 0).ok().map(|e| (e.attr.st_uid, e.attr.st_gid)),
         5 => vfs.symlink(&ctx, name_x(), node, name_x()).ok().map(|e| (e.attr.st_uid, e.attr.st_gid)),
